@@ -69,6 +69,17 @@ CHECKS["C15"] = dict(
     technique="TLA+ model checking (TLC) + behaviour replay + TLC trace validation",
     design="6/C15")
 
+CHECKS["C13"] = dict(
+    level="model_checking",
+    text="TLC checks probe_format's test sequence (HDFS bit, Watford recognition with the 10-bit start-sector guard, the parts of the Opus "
+         "volume table, catalogue validity) against the marker definition for all 1152 marker combinations, and probe_geometry's choice "
+         "against 'large enough'; every realisable combination is built as an image and the variant the real dfs treats it as, its chosen "
+         "geometry and its listing are judged by TraceIdentify.tla, including equality of listings across discs that differ only in bodies.",
+    note="The variant is observed through ui conventions of cat; marker-imitating bodies are represented by the aa2/start=2 and sector-16 "
+         "field combinations; forging a complete Opus table is excluded by the statement.",
+    technique="TLA+ model checking (TLC) + behaviour replay + TLC trace validation",
+    design="6/C13")
+
 PENDING_REASON = "check not built yet in this session (work in progress; design in DESIGN.md section 6)"
 
 
